@@ -518,6 +518,18 @@ func tryReplay(o *Obligation, repo, scratch string) (string, bool) {
 	if fn.Name() == "init" || c.eng.isGhostFn(fn) {
 		return "replay not applicable: " + fn.Name() + " is not callable from a test; model:\n" + firstLines(o.Model, 40), false
 	}
+	opaqueParam := false
+	for _, p := range fn.Params {
+		if pt, ok := p.Type().Underlying().(*types.Pointer); ok && isOpaqueStruct(pt.Elem()) {
+			opaqueParam = true
+		}
+		if it, ok := p.Type().Underlying().(*types.Interface); ok && it.NumMethods() > 0 {
+			opaqueParam = true
+		}
+	}
+	if opaqueParam {
+		return replayVia(o, repo, scratch)
+	}
 	terms := c.replayTerms()
 	// re-run the winning solver asking for the values of all replay terms
 	out := o.Model
@@ -742,7 +754,7 @@ func corpusFor(t types.Type, qual types.Qualifier) []string {
 		}
 	case *types.Slice:
 		if isByte(u.Elem()) {
-			return []string{ts + `("")`, ts + `("<a>x</a>")`, ts + `("{\"a\":1}")`, ts + `("</a>")`, ts + `("}")`, ts + `("<a>h<b/></a>")`, ts + `("<a><b>1</b><b>2</b></a>")`, ts + `("<a x=\"1\">t</a>")`, ts + `("[1,2]")`, ts + `("<a")`, ts + `("{\"a\":")`}
+			return []string{ts + `("")`, ts + `("<a>x</a>")`, ts + `("x<a>1</a>")`, ts + `("<a>t<b>1</b>u</a>")`, ts + `("<a><!--c--><b/><?p i?></a>")`, ts + `("<stream:stream><a/>")`, ts + `("{\"a\":\"x\\\\\"}{\"b\":2}")`, ts + `("{\"a\":1}")`, ts + `("</a>")`, ts + `("}")`, ts + `("<a>h<b/></a>")`, ts + `("<a><b>1</b><b>2</b></a>")`, ts + `("<a x=\"1\">t</a>")`, ts + `("[1,2]")`, ts + `("<a")`, ts + `("{\"a\":")`}
 		}
 		var out []string
 		out = append(out, ts+"(nil)")
@@ -763,8 +775,13 @@ func corpusFor(t types.Type, qual types.Qualifier) []string {
 
 // corpusTest builds a test that tries combinations of corpus values for every parameter.
 func corpusTest(o *Obligation, modelArgs []string, gsets []string, ptrHelpers map[string]string) string {
+	return corpusTestFor(o, o.Ctx.top, gsets, true)
+}
+
+// corpusTestFor searches the corpus through function fn (the obligation's own function, or a public entry point
+// named by `replay-via`); contract clauses are only evaluated when fn is the obligation's function.
+func corpusTestFor(o *Obligation, fn *ssa.Function, gsets []string, own bool) string {
 	c := o.Ctx
-	fn := c.top
 	pkg := c.eng.ld.Pkg
 	qual := types.RelativeTo(pkg)
 	var lists [][]string
@@ -824,7 +841,7 @@ func corpusTest(o *Obligation, modelArgs []string, gsets []string, ptrHelpers ma
 		resNames = append(resNames, fmt.Sprintf("out%d", i))
 	}
 	var oldNames []string
-	evalPost := o.Kind == "post" && c.fc != nil
+	evalPost := o.Kind == "post" && c.fc != nil && own
 	if evalPost {
 		for i, od := range c.fc.Olds {
 			if strings.Contains(od.Expr, "verif") {
@@ -844,7 +861,7 @@ func corpusTest(o *Obligation, modelArgs []string, gsets []string, ptrHelpers ma
 			}
 		}
 	}
-	if c.fc != nil {
+	if c.fc != nil && own {
 		for _, rq := range c.fc.Requires {
 			if strings.Contains(rq.Expr, "verif") && !strings.Contains(rq.Expr, "verifForall") {
 				continue
@@ -928,3 +945,59 @@ func propExplanation(prop string) string {
 var explanations = map[string]string{}
 
 var _ = ssa.NaiveForm
+
+// replayVia: the failing function takes abstract objects (decoders, readers) that cannot be built from a model;
+// search the input corpus through the public entry points named in its contract, with the option values of the model.
+func replayVia(o *Obligation, repo, scratch string) (string, bool) {
+	c := o.Ctx
+	if c.fc == nil || len(c.fc.ReplayVia) == 0 {
+		return "replay not applicable: " + c.top.Name() + " takes abstract standard-library objects and names no replay-via entry point; model:\n" + firstLines(o.Model, 30), false
+	}
+	terms := c.replayTerms()
+	out := o.Model
+	if o.SMTFile != "" && len(terms) > 0 {
+		if r := rerunForValues(o, terms, scratch); r != "" {
+			out = r
+		}
+	}
+	mc := parseModel(c, terms, out)
+	pkg := c.eng.ld.Pkg
+	var gsets []string
+	for _, g := range c.globalReads {
+		if g.global == nil || g.global.Pkg == nil || g.global.Pkg.Pkg != pkg || strings.Contains(g.global.Name(), "$") {
+			continue
+		}
+		v := mc.val(g.init)
+		if v == nil {
+			continue
+		}
+		if _, ok := g.typ.Underlying().(*types.Basic); ok {
+			gsets = append(gsets, fmt.Sprintf("\t{ old := %s; %s = %s; defer func() { %s = old }() }", g.global.Name(), g.global.Name(), mc.goValue(g.typ, v, 0), g.global.Name()))
+		}
+	}
+	sort.Strings(gsets)
+	var rep strings.Builder
+	fmt.Fprintf(&rep, "solver model:\n%s\n", firstLines(out, 20))
+	for _, via := range c.fc.ReplayVia {
+		obj := lookupFunc(pkg, via)
+		if obj == nil {
+			continue
+		}
+		vf := c.eng.ld.Prog.FuncValue(obj)
+		if vf == nil {
+			continue
+		}
+		src := corpusTestFor(o, vf, gsets, false)
+		if src == "" {
+			continue
+		}
+		res := runReplayTest(c, repo, scratch, src)
+		if strings.Contains(res, "outcome=panic") || strings.Contains(res, "panic:") {
+			fmt.Fprintf(&rep, "\ncorpus search through %s with the option values of the model found a failing input:\n%s\n\ncorpus test:\n%s\nREPRODUCED=true\n", via, firstLines(grepLines(res, "VERIF-REPLAY"), 8), src)
+			return rep.String(), true
+		}
+		fmt.Fprintf(&rep, "\ncorpus search through %s: no failing input (%s)\n", via, firstLines(grepLines(res, "VERIF-REPLAY|FAIL"), 3))
+	}
+	rep.WriteString("REPRODUCED=false\n")
+	return rep.String(), false
+}
